@@ -15,9 +15,10 @@ from .runner import HarnessError
 W32 = 1 << 32
 
 
-def cuts_to_menu(cuts):
+def cuts_to_menu(cuts, alt=False):
     """cuts: sorted probabilities in (0,1).  Returns [(word, weight), ...]: two probes per interval
-    (8 ulps inside its ends), each carrying half of the interval's measure."""
+    (8 ulps inside its ends), each carrying half of the interval's measure.  alt=True: the probes sit at 0.382 and 0.786 of
+    the interval instead (same intervals, same weights) -- an execution that is constant on every interval cannot tell."""
     import math
     edges = [0] + sorted({min(W32, max(0, int(math.ceil(p * W32)))) for p in cuts}) + [W32]
     menu = []
@@ -27,10 +28,22 @@ def cuts_to_menu(cuts):
         width = hi - lo
         if width <= 32:
             menu.append((lo + width // 2, width / W32))
+        elif alt:
+            menu.append((lo + int(width * 0.382), width / W32 / 2))
+            menu.append((lo + int(width * 0.786), width / W32 / 2))
         else:
             menu.append((lo + 8, width / W32 / 2))
             menu.append((hi - 1 - 8, width / W32 / 2))
     return menu
+
+
+class TooManyRuns(HarnessError):
+    pass
+
+
+class ReplayDivergence(HarnessError):
+    """The same tape prefix produced a different request sequence: the execution depends on something other than the random
+    words (for the annealers: identical calls with identical generator output differ)."""
 
 
 def enumerate_all(fn, word_menu, outcome, max_runs=5_000_000):
@@ -46,11 +59,11 @@ def enumerate_all(fn, word_menu, outcome, max_runs=5_000_000):
         res, log = tp.run(prefix, fn)
         runs += 1
         if runs > max_runs:
-            raise HarnessError("enumerate_all exceeded %d runs" % max_runs)
+            raise TooManyRuns("enumerate_all exceeded %d runs" % max_runs)
         if log[:len(expect)] != expect:
-            raise HarnessError("replaying tape prefix %r changed the request log: expected %r, got %r" % (prefix, expect, log[:len(expect)]))
+            raise ReplayDivergence("replaying tape prefix %r changed the request log: expected %r, got %r" % (prefix, expect, log[:len(expect)]))
         if len(log) < len(prefix):
-            raise HarnessError("tape prefix %r longer than the number of requests %d" % (prefix, len(log)))
+            raise ReplayDivergence("tape prefix %r longer than the number of requests %d" % (prefix, len(log)))
         if len(log) == len(prefix):
             o = outcome(res)
             dist[o] = dist.get(o, 0.0) + w
@@ -87,7 +100,7 @@ def enumerate_deviations(fn, d, visit, word_alts=WORD_EXTREMES, max_positions=No
         res, log = tp.run(t, fn)
         runs += 1
         if expect is not None and log[:len(expect)] != expect:
-            raise HarnessError("replaying tape %r changed the request log prefix" % (t,))
+            raise ReplayDivergence("replaying tape %r changed the request log prefix" % (t,))
         visit(t, res, log)
         if len(devs) >= d:
             continue
